@@ -304,7 +304,7 @@ let () =
              Printf.sprintf "INLREL\t%d\t%d" (if grel_b (S (S (grammar_size b))) a b then 1 else 0) (if fields_ok_std a then 1 else 0)
            | ["wf"; gid] ->
              let g = Hashtbl.find grammars gid in
-             Printf.sprintf "WF\t%d\t%d\t%d" (if well_formed g then 1 else 0) (if well_formed_lr g then 1 else 0) (if well_formed_once g then 1 else 0)
+             Printf.sprintf "WF\t%d\t%d\t%d" (if well_formed g then 1 else 0) (if well_formed_lr g then 1 else 0) (if well_formed_once_all g then 1 else 0)
            | other :: _ -> "UNKNOWN\t" ^ other
            | [] -> "EMPTY"
          with
